@@ -191,18 +191,18 @@ sharing a face, see `fine_edges_are_shared_faces`) joins a cell of group `a` and
 different and retained (`Contributes`) -/
 theorem cg_edge_iff {g : GridShape} {h : Rat} {uv ug : Sys} {envs : List Int} {im : List (Option Int)} {sp : CgSpace}
     (hok : coarsegrainGrid g h uv ug envs im = .ok sp) (c : Int × Int) :
-    c ∈ sp.edges.map edgeKey ↔ ∃ e ∈ (gridToGraph g h envs).edges, Contributes (im.filterMap id) e c :=
+    c ∈ sp.edges.map edgeKey ↔ ∃ e ∈ (cgGridToGraph g h envs).edges, Contributes (im.filterMap id) e c :=
   cg_edge_iff_aux hok c
 
 /-- `cg_surface`: contact surface = (number of shared faces between the two groups) × face area `h²` -/
 theorem cg_surface {g : GridShape} {h : Rat} {uv ug : Sys} {envs : List Int} {im : List (Option Int)} {sp : CgSpace}
-    (hok : coarsegrainGrid g h uv ug envs im = .ok sp) (o : GEdge) (ho : o ∈ sp.edges) :
-    o.surface = ((gridToGraph g h envs).edges.countP (fun e => decide (Contributes (im.filterMap id) e (edgeKey o))) : Rat) * (h * h) :=
+    (hok : coarsegrainGrid g h uv ug envs im = .ok sp) (o : CgEdge) (ho : o ∈ sp.edges) :
+    o.surface = ((cgGridToGraph g h envs).edges.countP (fun e => decide (Contributes (im.filterMap id) e (edgeKey o))) : Rat) * (h * h) :=
   cg_surface_aux hok o ho
 
 /-- `cg_distance²`: squared distance of an edge = squared Euclidean distance of the two centroids … -/
 theorem cg_distance {g : GridShape} {h : Rat} {uv ug : Sys} {envs : List Int} {im : List (Option Int)} {sp : CgSpace}
-    (hok : coarsegrainGrid g h uv ug envs im = .ok sp) (o : GEdge) (ho : o ∈ sp.edges) :
+    (hok : coarsegrainGrid g h uv ug envs im = .ok sp) (o : CgEdge) (ho : o ∈ sp.edges) :
     o.dist = sq (sp.cx.getD o.i.toNat 0 - sp.cx.getD o.j.toNat 0) + sq (sp.cy.getD o.i.toNat 0 - sp.cy.getD o.j.toNat 0)
       + sq (sp.cz.getD o.i.toNat 0 - sp.cz.getD o.j.toNat 0) := cg_distance_aux hok o ho
 
@@ -219,8 +219,8 @@ theorem cg_centroid {g : GridShape} {h : Rat} {uv ug : Sys} {envs : List Int} {i
 
 /-- the fine edges of a reflecting grid are exactly the pairs of cells that share a face (neighbours along +x, +y or +z),
 each once, with surface `h²` and length `h`; `gci` is the grid's own index formula (`x + y·w + z·w·h`, generated) -/
-theorem fine_edges_are_shared_faces (g : GridShape) (h : Rat) (envs : List Int) (hrefl : (g.px || g.py || g.pz) = false) (e : GEdge) :
-    e ∈ (gridToGraph g h envs).edges ↔ ∃ x y z, x < g.w ∧ y < g.h ∧ z < g.d ∧
+theorem fine_edges_are_shared_faces (g : GridShape) (h : Rat) (envs : List Int) (hrefl : (g.px || g.py || g.pz) = false) (e : CgEdge) :
+    e ∈ (cgGridToGraph g h envs).edges ↔ ∃ x y z, x < g.w ∧ y < g.h ∧ z < g.d ∧
       ((x + 1 < g.w ∧ e = ⟨gci g x y z, gci g (x + 1) y z, h * h, h⟩) ∨
        (y + 1 < g.h ∧ e = ⟨gci g x y z, gci g x (y + 1) z, h * h, h⟩) ∨
        (z + 1 < g.d ∧ e = ⟨gci g x y z, gci g x y (z + 1), h * h, h⟩)) := mem_fine_edges g h envs hrefl e
@@ -230,15 +230,15 @@ theorem cell_index_formula (g : GridShape) (x y z : Nat) (hx : x < g.w) (hy : y 
 
 /-- `identity_map`: on a reflecting grid the identity index map is accepted and gives the graph of the grid itself — the same
 nodes (volume `h³`, here expressed in the grid's units system, same environments) and the same edge list, in the same order,
-with surface `h²` and squared distance `h²` (`gridToGraph` records the distance `h`).  Together with C15 (a grid equals its
+with surface `h²` and squared distance `h²` (`cgGridToGraph` records the distance `h`).  Together with C15 (a grid equals its
 graph) this gives identical deterministic trajectories and identical stochastic trajectories for equal draws. -/
 theorem identity_map (g : GridShape) (h : Rat) (uv ug : Sys) (envs : List Int)
     (hrefl : (g.px || g.py || g.pz) = false) (hpos : 0 < g.size) (hlen : envs.length = g.size) (henv : ∀ e ∈ envs, e ≠ -2) :
     ∃ sp, coarsegrainGrid g h uv ug envs (idMap g.size) = .ok sp ∧
-      sp.vols = (gridToGraph g h envs).vols.map (· * convFactor uv ug Dim.volume) ∧
-      sp.envs = (gridToGraph g h envs).envs ∧
+      sp.vols = (cgGridToGraph g h envs).vols.map (· * convFactor uv ug Dim.volume) ∧
+      sp.envs = (cgGridToGraph g h envs).envs ∧
       sp.edges.map (fun e => (e.i, e.j, e.surface, e.dist)) =
-        (gridToGraph g h envs).edges.map (fun e => (e.i, e.j, e.surface, e.dist * e.dist)) :=
+        (cgGridToGraph g h envs).edges.map (fun e => (e.i, e.j, e.surface, e.dist * e.dist)) :=
   identity_map_aux g h uv ug envs hrefl hpos hlen henv
 
 /-- with the identity map the state and the chemostat flags are unchanged entry by entry (`cg_group_amount`, `cg_chem_any`
@@ -277,7 +277,7 @@ example : uncoarsegrain 2 1 2 4 [-1, 0, 1, 0] [4, 6, 8, 10] = .ok [0, 2, 6, 2, 0
 example :
     (match coarsegrainGrid ⟨2, 2, 1, false, false, false⟩ (1/2) Sys.default Sys.default [0, 1, 0, 1] [some 0, some 1, some 2, some 3] with
      | .ok sp =>
-       let gr := gridToGraph ⟨2, 2, 1, false, false, false⟩ (1/2) [0, 1, 0, 1]
+       let gr := cgGridToGraph ⟨2, 2, 1, false, false, false⟩ (1/2) [0, 1, 0, 1]
        sp.vols == gr.vols && sp.envs == gr.envs &&
          (sp.edges.map fun e => (e.i, e.j, e.surface, e.dist)) == (gr.edges.map fun e => (e.i, e.j, e.surface, e.dist * e.dist))
      | .error _ => false) = true := by
